@@ -201,7 +201,8 @@ inductive SetRes where
 structure Env where
   loaded : Val → Bool                      -- `modname in sys.modules` on entry
   importable : Val → Bool                  -- `modname in sys.modules` after `__import__(modname, None, None, "*")` was tried
-  modAttr : Val → Str → ObjKind            -- `getattr(sys.modules[modname], clsname, None)`
+  modAttr : Val → Str → ObjKind            -- what the module's OWN namespace holds under clsname: `vars(module).get(clsname)`
+  lazy : Val → Bool                        -- the module defines a module-level `__getattr__` (PEP 562): `getattr` runs module code
   builtinAttr : Str → ObjKind              -- `getattr(builtins, clsname, None)`
   fmtName : Val → Val → Except Err Str     -- `"%s.%s" % (modname, clsname)` when one of them is not a str
   setattr : ClsRef → Str → Val → SetRes    -- names other than `args`; `swallowed` = AttributeError
@@ -210,6 +211,7 @@ inductive Event where
   | importAttempt (modname : Val)
   | new (c : ClsRef)                        -- `cls.__new__(cls)`: no argument, `__init__` does not run
   | init (c : ClsRef)                       -- a constructor call `cls(...)`
+  | moduleCode (m : Val) (c : Str)          -- a module-level `__getattr__` ran with the peer-chosen name (it may import)
   deriving Repr
 
 /-- how `load` makes the instance — observed by the generator on a probe class with `__new__` / `__init__` canaries
@@ -219,12 +221,12 @@ def instantiationEvent (c : ClsRef) : Event :=
 
 /-- everything `vinegar.load` and the module functions it uses may call (compared with the generated, normalised call list
 of the source: `Gen.Vinegar.loadCalls`).  Each entry is a step of this model or a pure helper of the language:
-`__import__` = `importEvents`; `getattr`/`isinstance`/`issubclass` = `lookupClass`/`resolveClass`; `type`/`ClassType`/`str` =
+`__import__` = `importEvents`; `getattr`/`vars`/`.get`/`isinstance`/`issubclass` = `lookupClass`/`moduleLookup`/`resolveClass`; `type`/`ClassType`/`str` =
 `genericClass`; `.__new__`/`InstanceType` = `instantiationEvent`; `setattr`/`getattr` = `assignAttr`/`remoteVersion`;
 `.split`/`.format` = `versionCheck`; `.__str__`/`.count`/`hasattr` = `derivedStr`.  A call of a local name or of an
 expression (`cls(...)`) is in no list. -/
 def loadCallsAllowed : List String :=
-  ["ClassType", "InstanceType", "__import__", "getattr", "hasattr", "isinstance", "issubclass", "setattr", "str", "type",
+  ["ClassType", "InstanceType", "__import__", "getattr", "vars", "hasattr", "isinstance", "issubclass", "setattr", "str", "type",
    "tuple", "list", "dict", "len", "bool", "repr", "format", "iter", "next", "zip", "enumerate", "any", "all", "frozenset",
    ".__new__", ".__str__", ".split", ".partition", ".format", ".count", ".get", ".join", ".startswith", ".items",
    ".setdefault", ".append"]
@@ -317,10 +319,29 @@ def getattrKind (clsname : Val) (f : Str → ObjKind) : Except Err (ObjKind × S
   | .str c => .ok (f c, c)
   | _ => .error .typeError
 
+/-- the lookup of the class name in `sys.modules[modname]`.  Observed by the generator on a probe module with a PEP 562
+canary: the repaired code reads the module's own namespace (`vars(module).get(clsname)`: no module code runs, a name that is
+not text is simply absent); `getattr(module, clsname, None)` instead runs a lazy module's `__getattr__` for a name the
+namespace lacks — what that returns is the module's business (`notModelled`) — and raises TypeError for a non-text name -/
+def moduleLookup (env : Env) (m c : Val) : Except Err (ObjKind × Str) :=
+  match c with
+  | .str cn =>
+    if !Gen.Vinegar.moduleLookupPure && env.lazy m && env.modAttr m cn == .missing then .error .notModelled
+    else .ok (env.modAttr m cn, cn)
+  | _ => if Gen.Vinegar.moduleLookupNonTextRaises then .error .typeError else .ok (.missing, [])
+
+/-- module code run by that lookup -/
+def moduleCodeEvents (r : RecvCfg) (env : Env) (m c : Val) : List Event :=
+  if !Gen.Vinegar.moduleLookupPure && r.instCustom && inModules r env m && env.lazy m then
+    match c with
+    | .str cn => if env.modAttr m cn == .missing then [.moduleCode m cn] else []
+    | _ => []
+  else []
+
 /-- the `if instantiate_custom_exceptions: ... elif modname == "builtins": ... else: cls = None` block -/
 def lookupClass (r : RecvCfg) (env : Env) (m c : Val) : Except Err (ObjKind × Str) :=
   if r.instCustom then
-    if inModules r env m then getattrKind c (env.modAttr m) else .ok (.missing, [])
+    if inModules r env m then moduleLookup env m c else .ok (.missing, [])
   else if isBuiltinsName m then getattrKind c env.builtinAttr
   else .ok (.missing, [])
 
@@ -426,8 +447,8 @@ def instantiate (env : Env) (evs : List Event) (cls : ClsRef) (newNeedsArgs : Bo
 def loadRecord (r : RecvCfg) (env : Env) (m c args attrs tb : Val) : LoadResult :=
   if (r.importCustom || r.instCustom) && !hashable m then ⟨[], .error .typeError⟩
   else match resolveClass r env m c with
-    | .error e => ⟨importEvents r env m, .error e⟩
-    | .ok (cls, nn) => instantiate env (importEvents r env m) cls nn args attrs tb
+    | .error e => ⟨importEvents r env m ++ moduleCodeEvents r env m c, .error e⟩
+    | .ok (cls, nn) => instantiate env (importEvents r env m ++ moduleCodeEvents r env m c) cls nn args attrs tb
 
 /-- `vinegar.load` with the old-style switch left aside -/
 def loadCore (r : RecvCfg) (env : Env) (payload : Val) : LoadResult :=
